@@ -261,6 +261,17 @@ Theorem C18_unpack13_no_cid_total : forall req en fuel first b rs rest,
 Proof. exact unpack13_no_cid_total. Qed.
 Print Assumptions C18_unpack13_no_cid_total.
 
+Theorem C18_unpack13_zero_length_last_refuted :
+  let z := [26; 254; 253; 0; 0; 0; 0; 0; 0; 0; 0; 0; 0] in
+  let r1 := [60; 1; 0; 7; 0; 16] ++ repeat 170 16 in
+  let r2 := [60; 2; 0; 8; 0; 16] ++ repeat 187 16 in
+  well_framed false 0 z /\
+  unpack_datagram13 0 false true z = None /\
+  unpack_datagram13 1 true true (r1 ++ z ++ r2) = Some ([r1; z], r2) /\
+  unpack_datagram13 1 true true (r1 ++ z) = None.
+Proof. exact unpack13_zero_length_last_refuted. Qed.
+Print Assumptions C18_unpack13_zero_length_last_refuted.
+
 (* ================================================================== handshake messages *)
 
 Theorem C18_hello_verify_request : wsound w_hvr /\ wfixpoint w_hvr /\ wtrunc w_hvr /\ wlenient w_hvr.
